@@ -31,7 +31,21 @@ def execute(ob):
                 predicted=ob["predicted"], cls="OK", etype="", finite=True, msg="")
     if ob["xc"] == "tiny":
         pt["x_min"], pt["Q2"] = 1e-7, [30000, 1]
+    h = int(hashlib.sha1(ob["oid"].encode()).hexdigest(), 16)
+    if pt["flav"] == "total" and h % 2 == 0:
+        name = ob["name"]          # the same observable in its short spelling (no heavyness suffix)
     th, o = cells.build(pt, [name])
+    # representation of optional card entries: explicit / None (a YAML null) / absent - documented to mean the same
+    if pt["pto"] == pt["ptoEvol"] and (h // 2) % 3:
+        if (h // 2) % 3 == 1:
+            th["PTODIS"] = None
+        else:
+            th.pop("PTODIS")
+    if pt.get("parts", "full") == "full" and (h // 6) % 3:
+        if (h // 6) % 3 == 1:
+            th["FONLLParts"] = None
+        else:
+            th.pop("FONLLParts", None)
     kins = o["observables"][name]
     if XVAL[ob["xc"]] is not None:
         for k in kins:
